@@ -83,7 +83,7 @@ Definition emit_import (m : wir) (x : x2i) (i : mimport) : res (wimport * x2i) :
       let x1 := push_idx x S_memory mm in
       me <- of_opt (aget (m_memories m) mm) ;;
       Ok ({| wi_module := im_module i; wi_name := im_name i;
-             wi_kind := WI_Mem {| wm_64 := false; wm_shared := me_shared me; wm_init := me_init me; wm_max := me_max me; wm_page := None |} |}, x1)   (* imports.rs writes the literals `memory64: false, page_size_log2: None` *)
+             wi_kind := WI_Mem {| wm_64 := me_64 me; wm_shared := me_shared me; wm_init := me_init me; wm_max := me_max me; wm_page := me_page me |} |}, x1)
   | MI_Global g =>
       let x1 := push_idx x S_global g in
       gl <- of_opt (aget (m_globals m) g) ;;
@@ -249,7 +249,8 @@ Definition emit_function (m : wir) (x : x2i) (ilen : wins -> N) (id : N) (lf : m
   if negb (refs_ok x lmap evs) then Panic else
   st <- emit_body {| ex_id2i := id2i_fun x lmap; ex_ilen := ilen |} (lf_fuel lf) (lf_arena lf) (lf_entry lf) 0 ;;
   Ok {| ef_id := id; ef_body := {| wb_locals := decls; wb_ops := combine (out st) (map snd (imap st)) |};
-        ef_used := sort_ids (used_of_log evs); ef_lmap := lmap; ef_imap := imap st |}.
+        ef_used := sort_ids (used_of_log evs ++ lf_args lf);      (* the emitted set: used locals and every argument *)
+        ef_lmap := lmap; ef_imap := imap st |}.
 Definition emit_code (m : wir) (x : x2i) (ilen : wins -> N) : res (list wsec * x2i * list emitted_fn) :=
   fs <- used_local_functions m ;;
   match fs with
@@ -312,8 +313,8 @@ Definition starts_with_debug (s : str) : bool :=
 
 Record emitted := { em_secs : list wsec; em_module : wir; em_x2i : x2i; em_fns : list emitted_fn }.
 
-(* `let mut customs = mem::take(&mut self.customs);` -- and the module keeps the empty collection *)
-Definition set_customs_take (m : wir) : wir := set_customs m [].
+(* `let mut customs = mem::take(&mut self.customs);` ... `self.customs = customs;` at the end: the module is unchanged *)
+Definition set_customs_take (m : wir) : wir := m.
 
 (* Module::emit_wasm.  [dwarf] = the sections ModuleDebugData::emit writes (gimli; not modelled) *)
 Definition emitM (m : wir) (ilen : wins -> N) (dwarf : list wsec) : res emitted :=
